@@ -250,6 +250,8 @@ def check(run):
 
     # ------------------------------------------------------------------ R4 dependents
     _dependents(run, ix, ef, owners)
+    _stale_locals(run, ix)
+    _salvage_sites(run, ix, ef, T)
 
     run.extra["effect_engine"] = dict(ef.stats)
     run.assume("receiver typing by the repository's naming conventions (mesh -> Trimesh, ...); dynamic attribute tricks (setattr, eval_cached) are outside the model")
@@ -429,6 +431,166 @@ def _protocol(run, ix):
         run.instance("R3", s.where, f"setter stores into self._data['{field}']", ok)
         if not ok:
             run.violation("R3", s.where, f"Trimesh.{field} setter does not store through the hashed DataStore", key=key_of("C01-R3", "setter", field))
+
+
+SALVAGE = {
+    ("Trimesh.update_faces", "face_normals"): "rows of the cached normals selected by the same mask as the faces (R9 checks the side of the write)",
+    ("Trimesh.update_vertices", "vertex_normals"): "rows selected by the same mask as the vertices; dropped when a merge re-indexes outside a lock (R9)",
+    ("Trimesh.invert", "face_normals"): "negated: reversing the winding of every face negates every face normal",
+    ("Trimesh.invert", "vertex_normals"): "negated together with the face normals",
+    ("fix_inversion", "face_normals"): "rows of the flipped bodies negated, the rest unchanged",
+    ("fill_holes", "face_normals"): "old faces keep their rows; normals of the appended faces are computed from the appended faces",
+}
+
+
+def _salvage_sites(run, ix, ef, T):
+    """R11 / R12: values read from the memo before a data write and stored back after it"""
+    import networkx as nx
+
+    run.rule("R11", "a memo value read before a write of hashed data and stored back after it (a salvage) happens only at the reviewed sites; anywhere else the value must be recomputed")
+    run.rule("R12", "normals assigned through the validating setters are assigned after the data write they belong to (the setter compares them with the current triangles and silently drops a mismatch)")
+
+    def names(e):
+        return {n.id for n in ast.walk(e) if isinstance(n, ast.Name) and isinstance(n.ctx, ast.Load)}
+
+    found = set()
+    n12 = 0
+    for f in ix.all_functions:
+        src = ast.unparse(f.node)
+        if "_cache" not in src and "face_normals" not in src and "vertex_normals" not in src:
+            continue
+        owner = cls = None
+        if f.cls is not None and T in getattr(f.cls, "mro", []):
+            owner, cls = f.params[0], f.cls
+        elif "mesh" in f.params:
+            owner, cls = "mesh", T
+        if owner is None or f.name in ("__init__", "__setstate__"):
+            continue
+        try:
+            sim = CacheSim(ef, f, cls, owner, hashed_data, rhs_kind)
+        except RecursionError:
+            continue
+        cfg, rd = sim.cfg, sim._rd
+        writes = [n for n, fx in sim.fx.items() if fx.data_writes]
+        if not writes:
+            continue
+        for n, fx in sim.fx.items():
+            st = cfg.stmt[n]
+            if not isinstance(st, ast.Assign):
+                continue
+            t = st.targets[0]
+            key = None
+            setter = isinstance(t, ast.Attribute) and t.attr in ("face_normals", "vertex_normals") and ast.unparse(t.value) == owner
+            if setter:
+                key = t.attr
+            elif fx.memo_stores:
+                key = ",".join(sorted(fx.memo_stores))
+            if key is None:
+                continue
+            if setter:
+                # R12: no write of the faces / vertices may follow the validated store on any path
+                later = [w for w in writes if w != n and nx.has_path(cfg.g, n, w) and not nx.has_path(cfg.g, w, n)
+                         and any(d[0] in ("faces", "vertices", "*") for d in sim.fx[w].data_writes)]
+                n12 += 1
+                ok = not later
+                run.instance("R12", f.where, f"{f.qualname}: `{owner}.{key} = ...` (line {st.lineno}) is not followed by a write of faces / vertices", ok)
+                if not ok:
+                    run.violation("R12", f.where, f"`{f.qualname}` assigns `{owner}.{key}` at line {st.lineno} and writes the faces / vertices afterwards (line "
+                                                  f"{cfg.stmt[later[0]].lineno}): the setter validates against the triangles as they are at the assignment, so the normals "
+                                                  f"are either rejected or kept for data they do not belong to", key=key_of("C01-R12", f.qualname, key))
+            for v in names(st.value):
+                for (x, d) in rd[n]:
+                    if x != v or d == cfg.entry or d not in sim.fx:
+                        continue
+                    dst = cfg.stmt[d]
+                    reads_memo = bool(sim.fx[d].memo_reads) or "_cache.cache" in ast.unparse(dst) or any(
+                        isinstance(a, ast.Attribute) and a.attr in ("face_normals", "vertex_normals") and ast.unparse(a.value) == owner and isinstance(a.ctx, ast.Load)
+                        for a in ast.walk(dst))
+                    if not reads_memo:
+                        continue
+                    if any(w != d and w != n and nx.has_path(cfg.g, d, w) and nx.has_path(cfg.g, w, n) for w in writes):
+                        found.add((f, key))
+    for f, key in sorted(found, key=lambda x: (x[0].where, x[1])):
+        why = SALVAGE.get((f.qualname, key))
+        ok = why is not None
+        run.instance("R11", f.where, f"{f.qualname} salvages `{key}` across its data write: {why or 'NOT a reviewed salvage site'}", ok)
+        if not ok:
+            run.violation("R11", f.where, f"`{f.qualname}` reads `{key}` from the memo, writes hashed data (directly or through a callee) and stores the old value back: nothing "
+                                          f"establishes that the value still belongs to the new data (not in the table of reviewed salvage sites)",
+                          key=key_of("C01-R11", f.qualname, key))
+    run.floor("reviewed salvage sites found", len([1 for f, k in found if (f.qualname, k) in SALVAGE]), 4)
+    run.floor("validated normal stores", n12, 5)
+
+
+def _stale_locals(run, ix):
+    """R10: a value a function stores as normals / into a memo was derived from the FINAL state of the local arrays it was derived from"""
+    import networkx as nx
+    from ..cfg import reaching_defs
+
+    run.rule("R10", "a value stored as face / vertex normals or into a memo dict is not derived from a local array that the function changes in place "
+                    "between the derivation and the store (the faces stored would no longer be the faces the normals belong to)")
+    MUT = {"sort", "fill", "put", "partition", "resize", "reverse", "append", "extend", "insert", "remove", "pop", "itemset", "byteswap"}
+
+    def names(e):
+        return {n.id for n in ast.walk(e) if isinstance(n, ast.Name) and isinstance(n.ctx, ast.Load)}
+
+    n_sinks = 0
+    for f in ix.all_functions:
+        sinks = []
+        for st in ast.walk(f.node):
+            if isinstance(st, ast.Assign):
+                t = st.targets[0]
+                tt = ast.unparse(t)
+                if (isinstance(t, ast.Attribute) and t.attr in ("face_normals", "vertex_normals")) or "_cache[" in tt or "_cache.cache[" in tt:
+                    sinks.append(st)
+        if not sinks:
+            continue
+        try:
+            cfg = CFG(f.node, exceptions=False)
+        except RecursionError:
+            continue
+        mut = {}
+        for n, st in cfg.stmt.items():
+            if st is None or cfg.kind[n] != "stmt":
+                continue
+            ms = set()
+            if isinstance(st, (ast.Assign, ast.AugAssign)):
+                for t in (st.targets if isinstance(st, ast.Assign) else [st.target]):
+                    if isinstance(t, ast.Subscript) and isinstance(t.value, ast.Name):
+                        ms.add(t.value.id)
+            if isinstance(st, ast.Expr) and isinstance(st.value, ast.Call) and isinstance(st.value.func, ast.Attribute) \
+                    and st.value.func.attr in MUT and isinstance(st.value.func.value, ast.Name):
+                ms.add(st.value.func.value.id)
+            if ms:
+                mut[n] = ms
+        rd = reaching_defs(cfg) if mut else None
+        for st in sinks:
+            ns = cfg.nodes_of.get(id(st))
+            if not ns:
+                continue
+            n_sinks += 1
+            bad = None
+            if mut:
+                n = ns[0]
+                for v in names(st.value):
+                    for (x, d) in rd[n]:
+                        if x != v or d == cfg.entry:
+                            continue
+                        dst = cfg.stmt[d]
+                        if not isinstance(dst, ast.Assign):
+                            continue
+                        srcs = names(dst.value)
+                        for m, ms in mut.items():
+                            for a in ms & srcs:
+                                if d != m and nx.has_path(cfg.g, d, m) and nx.has_path(cfg.g, m, n) and not nx.has_path(cfg.g, m, d):
+                                    bad = (v, dst.lineno, a, cfg.stmt[m].lineno)
+            ok = bad is None
+            run.instance("R10", f.where, f"{f.qualname}: `{ast.unparse(st.targets[0])[:40]}` is stored from values derived after the last in-place change of their sources", ok)
+            if not ok:
+                v, dl, a, ml = bad
+                run.violation("R10", f.where, f"`{f.qualname}` stores `{ast.unparse(st.targets[0])[:40]}` from `{v}` (computed at line {dl} from `{a}`), but `{a}` is changed in place "
+                                              f"at line {ml} afterwards: the stored value describes the array as it was before that change", key=key_of("C01-R10", f.qualname, v, a))
+    run.floor("normal / memo stores examined", n_sinks, 25)
 
 
 def _dependents(run, ix, ef, owners):
